@@ -3,8 +3,11 @@
 # worktree and the check of its property (plus seeded/<id>/also) is run against THAT tree (PHYCLONE_REPO / PYTHONPATH), with evidence and replay files
 # redirected to a scratch directory, so /repo and /verif/evidence are never touched. Writes seeded/MATRIX.tsv. usage: tools/seed_matrix_par.sh [N] [seed ids...]
 cd "$(dirname "$0")/.."
+# MODE=refactors runs the negative controls (seeded/refactors/<id>, checks listed in <id>/checks or all twenty) and writes seeded/REFACTORS.tsv instead.
 N=${1:-4}; shift
-if [ $# -gt 0 ]; then IDS="$@"; else IDS=$(for d in seeded/*/; do id=$(basename $d); [ -f $d/patch.diff ] && echo $id; done); fi
+BASE=seeded; OUTFILE=seeded/MATRIX.tsv; HEADER="seed\tcheck\texit\tfirst violated obligation"
+if [ "$MODE" = "refactors" ]; then BASE=seeded/refactors; OUTFILE=seeded/REFACTORS.tsv; HEADER="refactor\tcheck\texit\tfirst message"; fi
+if [ $# -gt 0 ]; then IDS="$@"; else IDS=$(for d in $BASE/*/; do id=$(basename $d); [ -f $d/patch.diff ] && echo $id; done); fi
 SCR=/tmp/mx-$$; mkdir -p $SCR
 worker() {
   i=$1; shift
@@ -12,13 +15,15 @@ worker() {
   git -C /repo worktree add -q --detach $WT HEAD || return 2
   mkdir -p $SCR/ev$i $SCR/rp$i
   for id in "$@"; do
-    prop=${id%%-*}; d=seeded/$id
-    checks="$prop"; [ -f $d/also ] && checks="$checks $(cat $d/also)"
+    prop=${id%%-*}; d=$BASE/$id
+    if [ "$MODE" = "refactors" ]; then checks=$(cat $d/checks 2>/dev/null || echo C01 C02 C03 C04 C05 C06 C07 C08 C09 C10 C11 C12 C13 C14 C15 C16 C17 C18 C19 C20)
+    else checks="$prop"; [ -f $d/also ] && checks="$checks $(cat $d/also)"; fi
     git -C $WT apply /verif/$d/patch.diff || { echo -e "$id\t-\tpatch-does-not-apply\t" >> $SCR/rows$i.tsv; continue; }
     for c in $checks; do
       out=$(PHYCLONE_REPO=$WT PYTHONPATH=$WT VERIF_EVIDENCE_DIR=$SCR/ev$i VERIF_REPLAY_DIR=$SCR/rp$i bin/check $c 2>&1); code=$?
       first=$(echo "$out" | grep -A1 "^VIOLATION" | grep "obligation:" | head -1 | sed 's/^ *obligation: //' | cut -c1-160)
       [ -z "$first" ] && first=$(echo "$out" | grep -E "ENGINE-ERROR|UNDECIDED" | head -1 | cut -c1-160)
+      [ "$MODE" = "refactors" ] && [ $code -eq 0 ] && first=""
       [ -n "$SAVE_OUT" ] && { mkdir -p $SAVE_OUT; echo "$out" | grep -E "^VIOLATION|obligation:|ENGINE-ERROR|UNDECIDED|tier=" | cut -c1-400 > $SAVE_OUT/$id.$c.txt; }
       echo -e "$id\t$c\t$code\t$first" >> $SCR/rows$i.tsv
       echo "$id vs $c: exit=$code"
@@ -31,6 +36,6 @@ k=0; declare -a BUCKET
 for id in $IDS; do BUCKET[$((k % N))]="${BUCKET[$((k % N))]} $id"; k=$((k + 1)); done
 for i in $(seq 0 $((N - 1))); do worker $i ${BUCKET[$i]} & done
 wait
-if [ -z "$KEEP_OLD_ROWS" ]; then echo -e "seed\tcheck\texit\tfirst violated obligation" > seeded/MATRIX.tsv; cat $SCR/rows*.tsv | sort >> seeded/MATRIX.tsv
+if [ -z "$KEEP_OLD_ROWS" ]; then echo -e "$HEADER" > $OUTFILE; cat $SCR/rows*.tsv | sort >> $OUTFILE
 else cat $SCR/rows*.tsv | sort; fi
 rm -rf $SCR; git -C /repo worktree prune; git -C /repo worktree list
